@@ -683,9 +683,15 @@ loop:
 
 					// Resizing the encoder here rather than on the read loop keeps
 					// it with the goroutine that encodes: the read loop used to do
-					// it while a response header block was being written.
-					if st.hasTableSize {
-						sc.enc.SetMaxTableSize(st.tableSize)
+					// it while a response header block was being written. Every
+					// value in the frame counts, not only the last one, which is
+					// all st holds: a peer that lowers the size and raises it again
+					// has dropped entries on the way and waits to be told the
+					// smallest size as well as the final one (RFC 7541 4.2).
+					for b := fr.payload; len(b) >= 6; b = b[6:] {
+						if uint16(b[0])<<8|uint16(b[1]) == HeaderTableSize {
+							sc.enc.SetMaxTableSize(uint32(b[2])<<24 | uint32(b[3])<<16 | uint32(b[4])<<8 | uint32(b[5]))
+						}
 					}
 
 					if st.hasWindowSize {
